@@ -361,6 +361,28 @@ print_arg(struct ev_arg *arg, const char *fmt, struct cursor *c, struct emu_ev *
 	int n = 0;
 	uint8_t *payload = (uint8_t *) ev->payload;
 
+	/* The event may come without the declared payload */
+	if (payload == NULL) {
+		err("missing payload for argument %s", arg->name);
+		return -1;
+	}
+
+	/* The argument must be inside the payload (a payload_size of zero
+	 * with a payload means that the size is not known) */
+	if (ev->payload_size > 0) {
+		if (arg->offset + arg->size > ev->payload_size) {
+			err("payload too short for argument %s", arg->name);
+			return -1;
+		}
+
+		/* And the strings must end inside the payload too */
+		if (arg->type == STR && memchr(&payload[arg->offset], '\0',
+					ev->payload_size - arg->offset) == NULL) {
+			err("missing end of string in argument %s", arg->name);
+			return -1;
+		}
+	}
+
 #define CASE(TYPE) \
 		do { \
 			TYPE data; \
